@@ -17,7 +17,7 @@ def run(ctx, default_to, suppress, locale_keys=("b", "c"), default_keys=("a", "b
     if fn is None:
         return None, None
     log = []
-    this = CF("Locale", keys=L(*[T(S(k), A("v" + k)) for k in locale_keys]), name=S("fr"), top_locale_name=S("fr"))
+    this = CF("Locale", keys=L(*[T(S(k), A("v" + k)) for k in locale_keys]), name=S("grp"), top_locale_name=S("fr"))
     keys = CF("BuildersKeysInner", **{"0": L(*[T(S(k), A("k" + k)) for k in default_keys])})
 
     def entry(rv, a):
